@@ -130,9 +130,14 @@ def configs(tier):
         out.append(("povmt3", StandardPovmt(sts, 3, on_para_eq_constraint=para), [qobjs.povm3_qubit()], para))      # three outcomes on one qubit
         if tier == "thorough" or para:
             out.append(("qpt", StandardQpt(sts, pvs, on_para_eq_constraint=para), [qobjs.gen("gate", "x90", c)], para))
+    # qutrit states (the first dimension where clipping-and-rescaling differs from the projection onto the states): a mixed true
+    # state of rank two, so that few-shot optima lie on the boundary with several positive eigenvalues
+    from quara.objects.state import State
+    c3 = qobjs.csys("qutrit", 1)
+    mixed3 = State(c3, 0.7 * qobjs.gen("state", "01y0", c3).vec + 0.3 * qobjs.gen("state", "12x1", c3).vec)
+    out.append(("qst3", StandardQst(qobjs.tester_povms("qutrit"), on_para_eq_constraint=True), [mixed3] if tier == "quick" else [mixed3, qobjs.gen("state", "01y0", c3)], True))
     if tier == "thorough":
-        c3 = qobjs.csys("qutrit", 1)
-        out.append(("qst3", StandardQst(qobjs.tester_povms("qutrit"), on_para_eq_constraint=True), [qobjs.gen("state", "01y0", c3)], True))
+        out.append(("qst3", StandardQst(qobjs.tester_povms("qutrit"), on_para_eq_constraint=False), [mixed3], False))
     return out
 
 
